@@ -26,38 +26,40 @@ func (it *Item) Expensive() bool {
 }
 
 type Fact struct {
-	I   int64
-	J   int64
-	K   int64
-	I8  int8
-	I16 int16
-	I32 int32
-	In  int
-	U   uint
-	U8  uint8
-	U16 uint16
-	U32 uint32
-	U64 uint64
-	F32 float32
-	X   float64
-	Y   float64
-	B   bool
-	C   bool
-	S   string
-	R   string
-	T   time.Time
-	T2  time.Time
-	P   *Sub
-	Q   *Sub
-	N   Sub
-	Arr []int64
-	FA  []float64
-	M   map[string]int64
-	PI  *int64
-	Any interface{}
-	Subs []*Sub
-	SubM map[string]*Sub
-	NilM map[string]int64 // stays nil: writing an entry fails inside reflect
+	I     int64
+	J     int64
+	K     int64
+	I8    int8
+	I16   int16
+	I32   int32
+	In    int
+	U     uint
+	U8    uint8
+	U16   uint16
+	U32   uint32
+	U64   uint64
+	F32   float32
+	X     float64
+	Y     float64
+	B     bool
+	C     bool
+	S     string
+	R     string
+	T     time.Time
+	T2    time.Time
+	P     *Sub
+	Q     *Sub
+	N     Sub
+	Arr   []int64
+	FA    []float64
+	M     map[string]int64
+	PI    *int64
+	Any   interface{}
+	Subs  []*Sub
+	SubM  map[string]*Sub
+	NilM  map[string]int64       // stays nil: writing an entry fails inside reflect
+	Flags map[string]interface{} // an interface-typed bool behind a map entry
+	PB    *bool                  // a pointer-typed bool
 	items []*Item
 
 	// sinks of the expression harness
@@ -181,6 +183,9 @@ func newFact(tag string, shape int) *Fact {
 	f.Subs = []*Sub{{V: smallInt(tag + ".Subs0.V")}, {V: smallInt(tag + ".Subs1.V")}}
 	f.SubM = map[string]*Sub{"no": {V: smallInt(tag + ".SubM.no.V")}, "go": {V: smallInt(tag + ".SubM.go.V")}}
 	f.items = []*Item{{V: smallInt(tag + ".item0")}, {V: smallInt(tag + ".item1")}}
+	f.Flags = map[string]interface{}{"vip": verif.Bool(tag + ".Flags.vip")}
+	pb := verif.Bool(tag + ".PB")
+	f.PB = &pb
 	f.PanicAt = 7
 	return f
 }
@@ -241,6 +246,9 @@ func copyFact(f *Fact) *Fact {
 	g.Subs = []*Sub{{V: f.Subs[0].V}, {V: f.Subs[1].V}}
 	g.SubM = map[string]*Sub{"no": {V: f.SubM["no"].V}, "go": {V: f.SubM["go"].V}}
 	g.Log = nil
+	g.Flags = map[string]interface{}{"vip": f.Flags["vip"]}
+	pb := *f.PB
+	g.PB = &pb
 	g.items = []*Item{{V: f.items[0].V}, {V: f.items[1].V}}
 	return &g
 }
